@@ -1794,7 +1794,7 @@ func cbpCheckCallX(kk *cbpCtx, ci ssa.CallInstruction, name string, depth int, s
 		OnTrue  *ssa.BasicBlock
 		OnFalse *ssa.BasicBlock
 	}
-	other := false
+	other, errHanded := false, false
 	if keep != nil {
 		ifs, other = sdCondIfs(keep)
 	}
@@ -1820,50 +1820,273 @@ func cbpCheckCallX(kk *cbpCtx, ci ssa.CallInstruction, name string, depth int, s
 		for _, i := range ifs {
 			kk.mustFail("error of the "+name, e, stopEdge(i), nil, ci)
 		}
+	} else if !cbpHasDefers(fn) && kk.handsStepErrorOn(call, e) {
+		// `return cb(...)`: the error is used for nothing but being returned, unchanged, by every return that can
+		// follow the call, and nothing continues the diff in between: it is the caller that must test it — decided
+		// below, where the call sites are checked (both results of the helper are held to this rule there)
+		errHanded = true
 	} else {
 		c.Undecided(fn, pos, "error of the "+name+" never tested", "the callback's error is not compared with nil; the rule cannot find the failing path")
 	}
+	// errSettle: the decision on an error that is only handed on — fine where the call sites were checked
+	errSettle := func(nCallers int) {
+		if !errHanded {
+			return
+		}
+		if nCallers > 0 {
+			c.OK(pos, "error of the "+name+" in "+fn.Name(), fmt.Sprintf("returned unchanged to the caller; checked at its %d call site(s)", nCallers), false)
+		} else {
+			c.Undecided(fn, pos, "error of the "+name+" never tested", "the callback's error is not compared with nil; the rule cannot find the failing path")
+		}
+	}
 	if keep == nil {
+		errSettle(0)
 		c.Violation(fn, pos, "keepGoing of the "+name+" ignored", "the callback's keepGoing result is dropped: the diff cannot be stopped early")
 		return
+	}
+	checkCallers := func(upStop, upTied bool) int {
+		n := 0
+		for _, cs := range P.Callers[fn] {
+			if !kk.S.slice[cs.Parent()] {
+				continue
+			}
+			n++
+			kc := &cbpCtx{c: c, S: kk.S, fn: cs.Parent(), step: kk.step}
+			cbpCheckCallX(kc, cs, name+" (through "+fn.Name()+")", depth+1, upStop, upTied)
+		}
+		return n
+	}
+	checkStopEdges := func() {
+		for _, i := range ifs {
+			// a callback may return (false, err): `return nil` on the
+			// keepGoing==false edge is right only where err is known nil
+			errKnownNil := e == nil || nilFactOn(i.If.Block(), e, true)
+			kk.mustStop("keepGoing==false of the "+name, stopEdge(i), func(op ssa.Value) bool {
+				if e != nil && sameValue(op, e) {
+					return true
+				}
+				return ir.IsNilConst(op) && errKnownNil
+			}, "nil (with the callback's error known to be nil) or that error", ci)
+		}
 	}
 	if other || len(ifs) == 0 {
 		// handed on to the caller?
 		if depth < 2 && len(ifs) == 0 {
-			upStop, upTied, handed := stopVal, false, sdOnlyReturned(keep)
+			upStop, upTied, handed := stopVal, false, sdOnlyReturned(keep) && cbpKeepReachesReturns(fn, call, keep, stopVal)
 			if onlyCalledStatically(c, fn) {
 				if s, t, ok := cbpHandsOn(fn, call, keep, stopVal); ok {
 					upStop, upTied, handed = s, t, true
 				}
 			}
 			n := 0
-			for _, cs := range P.Callers[fn] {
-				if !handed || !kk.S.slice[cs.Parent()] {
-					continue
-				}
-				n++
-				kc := &cbpCtx{c: c, S: kk.S, fn: cs.Parent(), step: kk.step}
-				cbpCheckCallX(kc, cs, name+" (through "+fn.Name()+")", depth+1, upStop, upTied)
+			if handed {
+				n = checkCallers(upStop, upTied)
 			}
 			if n > 0 {
+				errSettle(n)
 				c.OK(pos, "keepGoing of the "+name+" in "+fn.Name(), fmt.Sprintf("returned to the caller; checked at its %d call site(s)", n), false)
 				return
 			}
+		} else if depth < 2 && onlyCalledStatically(c, fn) {
+			// tested here AND handed on (`if err != nil || !keepGoing { return keepGoing, err }`): the helper must
+			// stop on its stop edge like the driver, and answer there what asks its caller to stop
+			var edges []*ssa.BasicBlock
+			for _, i := range ifs {
+				edges = append(edges, stopEdge(i))
+			}
+			if upStop, upTied, ok := cbpTestsAndHandsOn(fn, keep, edges, stopVal); ok {
+				if n := checkCallers(upStop, upTied); n > 0 {
+					errSettle(n)
+					checkStopEdges()
+					c.OK(pos, "keepGoing of the "+name+" in "+fn.Name(), fmt.Sprintf("tested here, and the stop request is returned to the caller; checked at its %d call site(s)", n), false)
+					return
+				}
+			}
 		}
+		errSettle(0)
 		c.Undecided(fn, pos, "keepGoing of the "+name+" not used as a branch condition", "keepGoing is not (only) used to branch; the rule cannot find the stopping path")
 		return
 	}
-	for _, i := range ifs {
-		// a callback may return (false, err): `return nil` on the
-		// keepGoing==false edge is right only where err is known nil
-		errKnownNil := e == nil || nilFactOn(i.If.Block(), e, true)
-		kk.mustStop("keepGoing==false of the "+name, stopEdge(i), func(op ssa.Value) bool {
-			if e != nil && sameValue(op, e) {
+	if depth < 2 && cbpBoolResult(fn) >= 0 && len(P.Callers[fn]) > 0 {
+		// a helper with a boolean result that branches on keepGoing: returning ends the helper, not the diff — the
+		// stop edge must answer what asks the caller to stop, and the callers are held to it
+		var edges []*ssa.BasicBlock
+		for _, i := range ifs {
+			edges = append(edges, stopEdge(i))
+		}
+		n := 0
+		if upStop, upTied, ok := cbpTestsAndHandsOn(fn, keep, edges, stopVal); ok && onlyCalledStatically(c, fn) {
+			n = checkCallers(upStop, upTied)
+		}
+		errSettle(n)
+		if n == 0 {
+			c.Undecided(fn, pos, "keepGoing of the "+name+": stop request not handed to the caller", "the helper "+fn.Name()+" branches on keepGoing, but the rule cannot see that its boolean result tells its caller to stop")
+			return
+		}
+		checkStopEdges()
+		return
+	}
+	errSettle(0)
+	checkStopEdges()
+}
+
+// cbpBoolResult: the index of fn's single boolean result (-1 if none or several).
+func cbpBoolResult(fn *ssa.Function) int {
+	res, bi := fn.Signature.Results(), -1
+	for i := 0; i < res.Len(); i++ {
+		if sdIsBool(res.At(i).Type()) {
+			if bi >= 0 {
+				return -1
+			}
+			bi = i
+		}
+	}
+	return bi
+}
+
+// cbpKeepReachesReturns: every return of fn that can follow the call answers,
+// in fn's single boolean result, keep itself (possibly merged by a φ with the
+// stopping constant) or the constant that asks to stop: no path after the call
+// drops the callback's request to stop.
+func cbpKeepReachesReturns(fn *ssa.Function, call *ssa.Call, keep ssa.Value, stopVal bool) bool {
+	bi := cbpBoolResult(fn)
+	if bi < 0 || cbpHasDefers(fn) {
+		return false
+	}
+	var fine func(v ssa.Value, d int) bool
+	fine = func(v ssa.Value, d int) bool {
+		if v == keep {
+			return true
+		}
+		if k, isK := ir.ConstBool(v); isK {
+			return k == stopVal
+		}
+		if phi, isPhi := v.(*ssa.Phi); isPhi && d < 2 {
+			for _, e := range phi.Edges {
+				if !fine(e, d+1) {
+					return false
+				}
+			}
+			return true
+		}
+		return false
+	}
+	for _, r := range ir.Returns(fn) {
+		if !ir.InstrReaches(call, r) {
+			continue
+		}
+		if bi >= len(r.Results) || !fine(r.Results[bi], 0) {
+			return false
+		}
+	}
+	return true
+}
+
+// cbpHasDefers: fn has deferred calls (which could change its results).
+func cbpHasDefers(fn *ssa.Function) bool {
+	for _, b := range fn.Blocks {
+		for _, ins := range b.Instrs {
+			switch ins.(type) {
+			case *ssa.Defer, *ssa.RunDefers:
 				return true
 			}
-			return ir.IsNilConst(op) && errKnownNil
-		}, "nil (with the callback's error known to be nil) or that error", ci)
+		}
 	}
+	return false
+}
+
+// cbpTestsAndHandsOn: helper fn branches on keep (the boolean result of a
+// callback invocation, asking to stop when it equals stopVal) and also returns
+// it: keep is used for nothing but branching and being returned (as it is or
+// negated) in fn's single boolean result, and every return that can follow one
+// of the stop edges answers the same request to stop — keep itself (which has
+// the stopping value on every path through such an edge), its negation, or the
+// constant. upStop is the value of fn's boolean result that asks to stop;
+// upTied as in cbpHandsOn. Functions with defers do not qualify.
+func cbpTestsAndHandsOn(fn *ssa.Function, keep ssa.Value, stopEdges []*ssa.BasicBlock, stopVal bool) (upStop, upTied, ok bool) {
+	res := fn.Signature.Results()
+	ei, bi := ir.ErrorResultIndex(fn.Signature), -1
+	for i := 0; i < res.Len(); i++ {
+		if sdIsBool(res.At(i).Type()) {
+			if bi >= 0 {
+				return false, false, false
+			}
+			bi = i
+		}
+	}
+	if bi < 0 || ei < 0 || cbpHasDefers(fn) {
+		return false, false, false
+	}
+	forms := map[ssa.Value]bool{} // value -> negated
+	var walk func(v ssa.Value, neg bool, d int) bool
+	walk = func(v ssa.Value, neg bool, d int) bool {
+		if d > 2 || v.Referrers() == nil {
+			return false
+		}
+		forms[v] = neg
+		for _, r := range *v.Referrers() {
+			switch x := r.(type) {
+			case *ssa.DebugRef, *ssa.If:
+			case *ssa.Return:
+				for i, op := range x.Results {
+					if op == v && i != bi {
+						return false
+					}
+				}
+			case *ssa.UnOp:
+				if x.Op != token.NOT || !walk(x, !neg, d+1) {
+					return false
+				}
+			default:
+				return false
+			}
+		}
+		return true
+	}
+	if !walk(keep, false, 0) {
+		return false, false, false
+	}
+	n := 0
+	for _, from := range stopEdges {
+		reach := ir.ReachableFrom(from, nil)
+		for _, r := range ir.Returns(fn) {
+			if !reach[r.Block()] {
+				continue
+			}
+			if bi >= len(r.Results) {
+				return false, false, false
+			}
+			bop := r.Results[bi]
+			var asks bool
+			if neg, isForm := forms[bop]; isForm {
+				asks = stopVal != neg
+			} else if k, isK := ir.ConstBool(bop); isK {
+				asks = k
+			} else {
+				return false, false, false
+			}
+			if n > 0 && asks != upStop {
+				return false, false, false
+			}
+			upStop = asks
+			n++
+		}
+	}
+	if n == 0 {
+		return false, false, false
+	}
+	// upTied: fn never fails without asking to stop
+	upTied = true
+	for _, r := range ir.Returns(fn) {
+		if bi >= len(r.Results) || ei >= len(r.Results) {
+			return false, false, false
+		}
+		k, isK := ir.ConstBool(ir.ForwardLoad(r.Results[bi]))
+		if !ir.IsNilConst(ir.ForwardLoad(r.Results[ei])) && !(isK && k == upStop) {
+			upTied = false
+		}
+	}
+	return upStop, upTied, true
 }
 
 // cbpHandsOn: helper fn hands the stop request of `call` (its boolean result
